@@ -34,7 +34,14 @@ NEAR = [
 ]
 GLUE = [" ", ".", ",", "\n", "(", ")", "x", "/", ":", "7.5/", "CVSS:3.1/", "CVSS:3.", "3", "1", "é",
         "-", "\t", "CVSS:", "A"]
-ALPHABET = [V2MIN, V2OPT, V2PERM, V30, V31, V31OPT, V31X, V40, V2FULL, V31FULL] + NEAR + GLUE + ["_", "0", "²", "[", "]", "`", "^", "\\", "@", "'"]
+V31MOD = V31 + "/MAV:N/MS:U"     # not equal to V31: two Modified metrics are given (with the base metrics' values)
+# delimiters a careless scanner treats as letters: characters that Unicode case-insensitive matching
+# folds onto ASCII letters (Kelvin sign, long s, dotted capital / dotless small i), full-width and
+# other look-alike letters, a lone surrogate (half an emoji, as json.loads yields it), an astral
+# character, NUL
+ODD = ["\u212a", "\u017f", "\u0130", "\u0131", "\uff21", "\u0410", "\ud83d", "\udc80", "\U0001f600", "\0"]
+ALPHABET = [V2MIN, V2OPT, V2PERM, V30, V31, V31OPT, V31X, V40, V2FULL, V31FULL, V31MOD] + NEAR + GLUE + \
+    ["_", "0", "²", "[", "]", "`", "^", "\\", "@", "'"] + ODD
 
 
 EXT = CLASS | set("3.01")      # a valid v2/v3 vector consists of these characters only
